@@ -118,6 +118,7 @@ class FiltersSet:
             ":copy": "copy",
             ":create": "mailbox",
             ":seconds": "vacation-seconds",
+            ":flags": "imap4flags",
         }
         if arg in args_using_extensions:
             self.require(args_using_extensions[arg])
